@@ -14,22 +14,12 @@ import (
 
 func main() {
 	p := progen.Dataflow(progen.DataflowParams{Kind: "arr", Src: "gen", Size: 2, Cons: "sums", Extra: "chain"})
-	if len(os.Args) > 1 && os.Args[1] == "sarr" {
-		p = progen.Dataflow(progen.DataflowParams{Kind: "sarr", Src: "gen", Size: 2, Cons: "id", Map: "top"})
-	}
-	p.Py = true
 	ref, _ := progen.Interpret(p)
 	t0 := time.Now()
-	opts := psx.BOptions{KeepDir: true}
-	if len(os.Args) > 3 {
-		opts.Fault = &psx.Fault{Job: os.Args[3], Kind: os.Args[2]}
-	}
+	opts := psx.BOptions{KeepDir: true, JobMode: os.Args[1], MaxJobs: 2}
 	r := psx.RunB(p, opts)
 	res := psx.AsResult(p, r)
 	fmt.Printf("exit=%d wall=%v obs=%d state=%s\n", r.Exit, time.Since(t0), len(r.Obs), res.State)
-	for _, o := range r.Obs {
-		fmt.Println("  ", o.Key, o.How, o.Fault)
-	}
 	for _, v := range psx.CheckDataflow(ref, res) {
 		fmt.Println("  DF:", v)
 	}
@@ -39,5 +29,5 @@ func main() {
 	if r.Exit != 0 || os.Getenv("SHOW") != "" {
 		fmt.Println(psx.ConsoleTail(r.Console, 25))
 	}
-	fmt.Println(r.Dir)
+	r.Cleanup()
 }
